@@ -10,7 +10,7 @@ wt=$(mktemp -d /tmp/xwt.XXXXXX); rmdir "$wt"
 trap 'rm -rf "$cp_"; git -C /repo worktree remove --force "$wt" 2>/dev/null' EXIT
 rsync -a --exclude .git --exclude replays --exclude seeded "$here"/ "$cp_"/
 git -C /repo worktree add -q --detach "$wt" HEAD || exit 2
-{ git -C "$wt" apply "$d/patch.diff" 2>/dev/null || git -C "$wt" apply -3 "$d/patch.diff" 2>/dev/null || git -C "$wt" apply -C1 "$d/patch.diff"; } || { echo "patch does not apply"; exit 2; }
+{ git -C "$wt" apply "$d/patch.diff" 2>/dev/null || { git -C "$wt" apply -3 "$d/patch.diff" 2>/dev/null || { git -C "$wt" reset -q --hard HEAD; false; }; } || git -C "$wt" apply -C1 "$d/patch.diff"; } || { echo "patch does not apply"; exit 2; }
 props=${*:-$(python3 -c "import json;print(' '.join(c['property_id'] for c in json.load(open('$here/MANIFEST.json'))['checks']))")}
 cd "$cp_"
 for p in $props; do echo $p; done | xargs -P ${JOBS:-5} -I{} sh -c \
